@@ -770,6 +770,181 @@ fn agg_of_agg(ctx: &mut Ctx, idx: usize, r: &mut Rng) {
     ctx.case(family, &key, "pass", serde_json::json!({"query": query, "size": [w, h], "rows": rows, "frames": frames.len(), "refresh_density": density, "idle_pauses": pauses.len()}));
 }
 
+/* ---------- level 2d: idle catch-up — the real loop with the real clock ---------- */
+
+const IDLE_QUERIES: &[&str] = &["* | count", "* | json | count by k", "* | json | count by k | count", "* | json | sum(n) by k | sort by _sum"];
+
+/// how long a stale screen is tolerated before it is judged stale (the refresh interval is 50 ms;
+/// a loaded machine may be late, a loop that does not redraw on idle ticks never catches up)
+const CATCH_UP_BOUND_MS: u64 = 2000;
+
+/// The real `Pipeline::process` on a forced terminal with the REAL clock (no refresh override):
+/// a burst of lines is released at once (so all but the first arrive inside the 50 ms throttle
+/// window), the input is then held open and idle; after ≥ 6 refresh intervals the bytes drawn so
+/// far, replayed through the emulator, must show the table of ALL lines released so far.
+fn idle_catch_up(ctx: &mut Ctx, idx: usize, r: &mut Rng) {
+    use super::c15::Gate;
+    let query = IDLE_QUERIES[r.below(IDLE_QUERIES.len())];
+    let w = 60 + r.below(140) as u16;
+    let h = 20 + r.below(30) as u16;
+    let nbursts = 2 + r.below(2);
+    let mut bursts: Vec<Vec<u8>> = vec![];
+    let mut burst_lines: Vec<usize> = vec![];
+    for _ in 0..nbursts {
+        let k = 2 + r.below(7);
+        let mut b = String::new();
+        for _ in 0..k {
+            b.push_str(&format!("{{\"k\":\"k{}\",\"n\":{}}}\n", r.below(3), r.range(1, 50)));
+        }
+        bursts.push(b.into_bytes());
+        burst_lines.push(k);
+    }
+    let idle_ms: Vec<u64> = (0..nbursts).map(|_| 300 + r.below(100) as u64).collect();
+    let family = "idle-catch-up";
+    let key = format!("{}:{}", family, idx);
+    let info = serde_json::json!({"level": "pipeline, real clock", "query": query, "size": [w, h], "bursts": burst_lines, "idle_ms": idle_ms,
+        "input_hex": enc::hexb(&bursts.concat())});
+    let gate = Gate::default();
+    let sink = CountingBuf::default();
+    let (tx, rx) = mpsc::channel();
+    {
+        let q = query.to_string();
+        let out = sink.clone();
+        let reader = gate.reader();
+        std::thread::spawn(move || {
+            let res = catch_unwind(AssertUnwindSafe(move || {
+                let qc = QueryContainer::new(q, Box::new(Recorder::default()));
+                match Pipeline::verif_new_with_terminal(&qc, out, OutputMode::Legacy, Some((w, h)), true, None) {
+                    Ok(p) => {
+                        p.process(reader);
+                        true
+                    }
+                    Err(_) => false,
+                }
+            }));
+            let _ = tx.send(res.unwrap_or(false));
+        });
+    }
+    let snapshot = |sink: &CountingBuf| -> Vec<u8> { sink.buf.0.lock().unwrap().clone() };
+    // what the screen shows for the bytes drawn so far: the last frame, if the screen is exactly it
+    let on_screen = |bytes: &[u8]| -> Option<String> {
+        let text = String::from_utf8_lossy(bytes).into_owned();
+        let mut scr = Screen::blank(w as usize, h as usize);
+        scr.display(&text)?;
+        let frames = split_frames(&text);
+        let last = frames.last()?.clone();
+        if scr.row_strings() == expected_rows(w as usize, h as usize, &last) {
+            Some(last)
+        } else {
+            None
+        }
+    };
+    let mut released: Vec<u8> = vec![];
+    let mut released_lines = 0usize;
+    let mut loop_req: Vec<String> = vec![];
+    let mut clock = 0u64;
+    let mut late_ms: Vec<u64> = vec![];
+    for (bi, b) in bursts.iter().enumerate() {
+        gate.release(b);
+        released.extend_from_slice(b);
+        released_lines += burst_lines[bi];
+        // the model's schedule: the burst inside one throttle window, then six idle poll intervals
+        for _ in 0..burst_lines[bi] {
+            clock += 1;
+            loop_req.push(format!("r{}:{}", clock, clock));
+        }
+        for _ in 0..6 {
+            clock += 51;
+            loop_req.push(format!("t{}:{}", clock, clock + 1));
+            clock += 1;
+        }
+        loop_req.push("S".into());
+        std::thread::sleep(Duration::from_millis(idle_ms[bi]));
+        let plain = run_pipeline(query, &released, None, false, 0, 0, vec![]);
+        let plain_text = String::from_utf8_lossy(&plain.bytes).into_owned();
+        let t0 = std::time::Instant::now();
+        let mut last_seen: Option<String>;
+        loop {
+            last_seen = on_screen(&snapshot(&sink));
+            let ok = match &last_seen {
+                Some(f) => frame_vs_plain(f, &plain_text, w, h, true).is_none(),
+                None => false,
+            };
+            if ok {
+                late_ms.push(t0.elapsed().as_millis() as u64);
+                break;
+            }
+            if t0.elapsed() > Duration::from_millis(CATCH_UP_BOUND_MS) {
+                // which prefix is on display?
+                let line_starts: Vec<usize> = std::iter::once(0).chain(released.iter().enumerate().filter(|(_, c)| **c == b'\n').map(|(i, _)| i + 1)).collect();
+                let shown = last_seen.as_ref().and_then(|f| {
+                    (0..=released_lines).find(|k| {
+                        let p = run_pipeline(query, &released[..line_starts[*k]], None, false, 0, 0, vec![]);
+                        frame_vs_plain(f, &String::from_utf8_lossy(&p.bytes), w, h, true).is_none()
+                    })
+                });
+                gate.eof();
+                let _ = rx.recv_timeout(Duration::from_secs(20));
+                ctx.case(
+                    family,
+                    &key,
+                    "viol",
+                    serde_json::json!({"class": "C16/idle-display-stale",
+                        "what": format!("after burst {} ({} lines released in all) and {} ms of idle input the screen still shows {} instead of the table of all lines received",
+                            bi, released_lines, idle_ms[bi] + CATCH_UP_BOUND_MS, match shown { Some(k) => format!("the table of the first {} lines", k), None => "something that is no prefix's table".to_string() }),
+                        "screen_frame": last_seen, "expected_table": plain_text, "case": info}),
+                );
+                return;
+            }
+            std::thread::sleep(Duration::from_millis(40));
+        }
+    }
+    gate.eof();
+    let compiled = match rx.recv_timeout(Duration::from_secs(20)) {
+        Ok(c) => c,
+        Err(_) => {
+            ctx.case(family, &key, "viol", serde_json::json!({"class": "C16/hang", "what": "the run did not end after end of input", "case": info}));
+            return;
+        }
+    };
+    if !compiled {
+        ctx.case(family, &key, "viol", serde_json::json!({"class": "C16/panic", "what": "the run panicked or the query did not compile", "panic": imp::LAST_PANIC.lock().map(|g| g.clone()).unwrap_or_default(), "case": info}));
+        return;
+    }
+    // end of input: the usual final-screen oracle and renderer F-level
+    let bytes = snapshot(&sink);
+    let text = String::from_utf8_lossy(&bytes).into_owned();
+    let frames = split_frames(&text);
+    let mut tap = VerdictTap::default();
+    judge_bytes_tap(ctx, &mut tap, w as usize, h as usize, &bytes, &frames);
+    if let Some((verdict, mut payload)) = tap.0.take() {
+        if verdict != "pass" {
+            payload["case"] = info;
+            ctx.case(family, if verdict == "skip" { "" } else { &key }, &verdict, payload);
+            return;
+        }
+    }
+    let plain = run_pipeline(query, &released, None, false, 0, 0, vec![]);
+    if let Some(bad) = frame_vs_plain(frames.last().map(|s| s.as_str()).unwrap_or(""), &String::from_utf8_lossy(&plain.bytes), w, h, true) {
+        ctx.case(family, &key, "viol", serde_json::json!({"class": "C16/final-frame-differs", "what": bad, "case": info}));
+        return;
+    }
+    // F-level: the model's loop (`Loop.step`, the object of `C16_idle_catch_up`) run on the same
+    // release schedule predicts which prefix is on display at every sample: all lines released
+    let ans = ctx.drv.ask(&format!("LOOP\t{}", loop_req.join(" ")));
+    let mut want: Vec<String> = vec![];
+    let mut acc = 0;
+    for k in &burst_lines {
+        acc += k;
+        want.push(format!("{}/{}", acc, acc));
+    }
+    if ans != format!("L {}", want.join(" ")) {
+        ctx.case(family, &key, "fdis", serde_json::json!({"what": format!("the model's loop predicts {} on display at the samples, the implementation showed {}", ans, want.join(" ")), "case": info}));
+        return;
+    }
+    ctx.case(family, &key, "pass", serde_json::json!({"query": query, "size": [w, h], "bursts": burst_lines, "idle_ms": idle_ms, "caught_up_after_ms": late_ms, "frames": frames.len()}));
+}
+
 /* ---------- level 2c: row-oriented output modes on a terminal ---------- */
 
 fn row_modes(ctx: &mut Ctx, idx: usize, r: &mut Rng, fixed_w: Option<u16>) {
@@ -979,6 +1154,11 @@ pub fn check(ctx: &mut Ctx) {
     for i in 0..n5 {
         let mut r = ctx.rng.fork();
         row_modes(ctx, ctx.shard * 1_000_000 + 700_000 + i, &mut r, None);
+    }
+    let n6 = ctx.budget(96, 960);
+    for i in 0..n6 {
+        let mut r = ctx.rng.fork();
+        idle_catch_up(ctx, ctx.shard * 1_000_000 + 800_000 + i, &mut r);
     }
     let n3 = ctx.budget(48, 800);
     for i in 0..n3 {
